@@ -555,22 +555,20 @@ class Runner:
             got.append((an, bn))
         self.distinct["query_shape"].add(core.sha([ref_class, from_sub, fshape, len(required), sorted(set(s for s, _, _ in expected))])[:12])
 
-        def norm_pair(p):
-            return (p[0], p[1])
-        got_l = sorted(map(norm_pair, got), key=repr)
-        if vanished:
-            # compare on names with the b side of vanished entries masked
-            def mask(p):
-                a, b = p
-                if (b in vanished) or (b is None and a in vanished):
-                    return (a, "?")
-                return p
-            got_l = sorted((mask(p) for p in got_l), key=repr)
-            required_m = sorted((mask(p) for p in required), key=repr)
-            optional_m = [mask(p) for p in optional]
-        else:
-            required_m = sorted(required, key=repr)
-            optional_m = list(optional)
+        got_l = sorted(((p[0], p[1]) for p in got), key=repr)
+        required_m = sorted(required, key=repr)
+        optional_m = list(optional)
+        for v in sorted(vanished):
+            # The harness made working-tree file v vanish under nbdime: that entry shows up with the null file on
+            # the working-tree side, which the code maps deliberately; take the entry out of the comparison.
+            r = next((p for p in required_m + optional_m if p[1] == v), None)
+            if r is None:
+                continue
+            (required_m if r in required_m else optional_m).remove(r)
+            if (r[0], None) in got_l:
+                got_l.remove((r[0], None))
+            elif r in got_l:
+                got_l.remove(r)
         if complete:
             extra = list(got_l)
             missing = []
